@@ -14,7 +14,8 @@ LEVEL = "model_checking"
 RULE = ("annotations: every forest with <= n leaves, <= g groups, depth <= d over {Event, Sensory-event, Red, Blue} (so "
         "every sibling order of every tree occurs); queries: atoms {term, \"term\", term*, ?, ??, ???} and all unary / binary "
         "compositions to the depth bound; laws on all pairs / triples; parser: every token string of length <= L over the "
-        "query token alphabet.  state = canonical annotation tree; transition = one search; non-trivial = composite query")
+        "query token alphabet; group objects taken out of an annotation searched on their own in three surroundings; negation of a "
+        "term absent from the annotation inside [ ].  state = canonical annotation tree; transition = one search; non-trivial = composite query")
 ASSUMPTIONS = [
     "for atomic operands 'A && B via distinct tags' means two different tag occurrences; for compound operands only the "
     "stated laws (symmetric, associative, implies both) are checked",
